@@ -126,10 +126,51 @@ func c12Boundary(x *engine.X, tier string) {
 		if forced {
 			ioc.Dispatched = sonic.MaxCallbackDispatch
 		}
+		// destination forms: plain IPv4 or IPv4-mapped (what net.UDPAddr.AddrPort() yields); and, to expose a
+		// destination remembered from an earlier write, a first write to ANOTHER address (127.0.0.2) of a second
+		// raw socket
+		mapped := x.Pick(2, "destination form plain/IPv4-mapped") == 1
+		dst := netip.AddrFrom4([4]byte{127, 0, 0, 1})
+		if mapped {
+			dst = netip.AddrFrom16(dst.As16())
+		}
+		if x.Deviate(2, "an earlier write to another destination") == 1 {
+			o, _ := syscall.Socket(syscall.AF_INET, syscall.SOCK_DGRAM|syscall.SOCK_CLOEXEC|syscall.SOCK_NONBLOCK, 0)
+			syscall.Bind(o, &syscall.SockaddrInet4{Addr: [4]byte{127, 0, 0, 2}})
+			x.Defer(func() { syscall.Close(o) })
+			osa, _ := syscall.Getsockname(o)
+			oport := osa.(*syscall.SockaddrInet4).Port
+			first := dgram(8, 5)
+			fc := 0
+			if target == 0 {
+				pc.AsyncWriteTo(first, &net.UDPAddr{IP: net.IPv4(127, 0, 0, 2), Port: oport}, func(err error) { fc++ })
+			} else {
+				mp.AsyncWrite(first, netip.AddrPortFrom(netip.AddrFrom4([4]byte{127, 0, 0, 2}), uint16(oport)), func(err error, m int) { fc++ })
+			}
+			for i := 0; i < 3 && fc == 0; i++ {
+				ioc.PollOne()
+			}
+			if !kern.AwaitReadReady(o, settleGuard) {
+				x.Fail("udp.write/no-datagram", "the first write (to 127.0.0.2) produced no datagram there")
+			}
+			fb := make([]byte, 64)
+			if m, _, _ := syscall.Recvfrom(o, fb, 0); m != 5 || string(fb[:5]) != string(first) {
+				x.Fail("udp.write/datagram-bytes", "the first write (to 127.0.0.2) arrived as %d bytes", m)
+			}
+			x.Defer(func() {
+				if kern.WouldNotBlockRead(o) && !x.Failed() {
+					x.FailSoft("udp.write/wrong-destination", "a datagram written to 127.0.0.1 arrived at the destination of an earlier write (127.0.0.2)")
+				}
+			})
+		}
 		if target == 0 {
-			pc.AsyncWriteTo(payload, &net.UDPAddr{IP: net.IPv4(127, 0, 0, 1), Port: rawPort}, func(err error) { calls++; werr = err })
+			ua := &net.UDPAddr{IP: net.IPv4(127, 0, 0, 1), Port: rawPort}
+			if !mapped {
+				ua.IP = ua.IP.To4()
+			}
+			pc.AsyncWriteTo(payload, ua, func(err error) { calls++; werr = err })
 		} else {
-			mp.AsyncWrite(payload, netip.AddrPortFrom(netip.AddrFrom4([4]byte{127, 0, 0, 1}), uint16(rawPort)), func(err error, m int) {
+			mp.AsyncWrite(payload, netip.AddrPortFrom(dst, uint16(rawPort)), func(err error, m int) {
 				calls++
 				werr = err
 				if err == nil && m != n {
@@ -145,8 +186,8 @@ func c12Boundary(x *engine.X, tier string) {
 		if calls != 1 || werr != nil {
 			x.Fail("udp.write/completion", "write of %d bytes: callbacks=%d err=%v", n, calls, werr)
 		}
-		if !kern.AwaitReadReady(raw, settleGuard) {
-			x.Fail("udp.write/no-datagram", "write of %d bytes reported success but no datagram arrived", n)
+		if !kern.AwaitReadReady(raw, 300*time.Millisecond) {
+			x.Fail("udp.write/no-datagram", "write of %d bytes to 127.0.0.1:%d (mapped form: %v) reported success but no datagram arrived there", n, rawPort, mapped)
 		}
 		buf := make([]byte, 70000)
 		m, from, err := syscall.Recvfrom(raw, buf, 0)
